@@ -42,7 +42,7 @@ def generate(rng, tier, index):
     integ = INTEGS[index % len(INTEGS)] if index < 2 * len(INTEGS) else rng.choice(INTEGS)
     cfg = simgen.gen_planetary_config(rng.derive("cfg"), integrators=[integ], nmin=2, nmax=4 if tier == "quick" else 8,
                                       allow_var=rng.chance(0.3), allow_collisions=False)
-    cfg["alloc"] = rng.choice([1, 2, 2])
+    cfg["alloc"] = rng.choice([1, 2, 3])
     d = rng.derive("driver")
     mode = d.choice(["manual_steps", "manual_integrate", "auto_step", "auto_interval"])
     nsnap = d.randint(2, 3 if tier == "quick" else 6)
